@@ -4,7 +4,7 @@ A linear-form algebra over symbolic lengths, evaluated path-sensitively over str
 """
 import ast
 
-from sa.model import AnalysisError, Finding, dump, digest, enclosing_fn, loc, src
+from sa.model import AnalysisError, Finding, FunctionInfo, dump, digest, enclosing_fn, loc, src
 
 
 # ---------------------------------------------------------------------------- linear forms
@@ -346,3 +346,90 @@ def rule_align_parse(prog, rep, tier, anchor="parse.function"):
         else:
             rep.holds("ALIGN-parse", "%s: padded defaults have the length of the arguments on all %d path(s) and keep the original as suffix"
                       % (anchor, len(ends)), loc(prog, loop), "len = %s" % lf_str(LA))
+
+
+# ---------------------------------------------------------------------------- ALIGN-idx
+def rule_align_idx(prog, rep, tier, anchor="ast_utils.RewriteAtQuery"):
+    """ALIGN-idx: an index used on `<fn>.args.defaults` is obtained from the positional argument list only, and an index
+    used on `kw_defaults` from the keyword-only list only.  The `_idx` numbering restarts at 0 for keyword-only arguments,
+    so an index looked up across both lists and applied to `defaults` overwrites the default of an unrelated positional
+    argument."""
+    ci = prog.cls(anchor)
+    region = []
+    for m in ci.methods.values():
+        for f in prog.region(m):
+            if f not in region:
+                region.append(f)
+    n = 0
+
+    sig_params = {}  # id(helper node) -> parameters that receive a `<fn>.args` object
+
+    def lists_in(nodes):
+        out = set()
+        for nd in nodes:
+            sp = sig_params.get(id(nd), set())
+            for x in ast.walk(nd):
+                if isinstance(x, ast.Attribute) and x.attr in ("args", "kwonlyargs", "posonlyargs") and isinstance(x.value, ast.Attribute) and x.value.attr == "args":
+                    out.add(x.attr)
+                elif isinstance(x, ast.Attribute) and x.attr in ("args", "kwonlyargs", "posonlyargs") and isinstance(x.value, ast.Name) and x.value.id in sp:
+                    out.add(x.attr)
+                elif isinstance(x, ast.Call) and _call_name(x) == "getattr" and len(x.args) >= 2 and isinstance(x.args[0], ast.Attribute) and x.args[0].attr == "args":
+                    a = x.args[1]
+                    if isinstance(a, ast.Constant) and a.value in ("args", "kwonlyargs", "posonlyargs"):
+                        out.add(a.value)
+                    elif isinstance(a, ast.Name):
+                        # getattr(node.args, attr) with attr looping over a constant tuple
+                        p = x
+                        while p is not None:
+                            it = getattr(p, "iter", None) if isinstance(p, (ast.For, ast.comprehension)) else None
+                            if it is not None and isinstance(it, ast.Tuple) and a.id in {t.id for t in ast.walk(p.target) if isinstance(t, ast.Name)}:
+                                out |= {e.value for e in it.elts if isinstance(e, ast.Constant) and e.value in ("args", "kwonlyargs", "posonlyargs")}
+                            gens = getattr(p, "generators", None)
+                            for g in gens or []:
+                                if isinstance(g.iter, ast.Tuple) and a.id in {t.id for t in ast.walk(g.target) if isinstance(t, ast.Name)}:
+                                    out |= {e.value for e in g.iter.elts if isinstance(e, ast.Constant) and e.value in ("args", "kwonlyargs", "posonlyargs")}
+                            p = getattr(p, "_parent", None)
+        return out
+
+    def sources_of(name, fi, depth=0):
+        """expressions (and helper functions) that define the index variable `name` in fi"""
+        nodes = []
+        for st in ast.walk(fi.node):
+            if isinstance(st, ast.Assign) and any(isinstance(t, ast.Name) and t.id == name for t in st.targets):
+                nodes.append(st.value)
+                for c in ast.walk(st.value):
+                    if isinstance(c, ast.Call) and isinstance(c.func, (ast.Name, ast.Attribute)) and depth < 2:
+                        for t in prog.resolve_expr_fn(c.func, c):
+                            if isinstance(t, FunctionInfo) and t in region and t is not fi:
+                                nodes.append(t.node)
+                                pn = t.params()
+                                got = {pn[i] for i, a in enumerate(c.args) if i < len(pn) and isinstance(a, ast.Attribute) and a.attr == "args"}
+                                got |= {k.arg for k in c.keywords if k.arg and isinstance(k.value, ast.Attribute) and k.value.attr == "args"}
+                                sig_params.setdefault(id(t.node), set()).update(got)
+            elif isinstance(st, (ast.For, ast.comprehension)) and name in {t.id for t in ast.walk(st.target) if isinstance(t, ast.Name)}:
+                nodes.append(st.iter)
+        return nodes
+
+    for fi in region:
+        for sub in ast.walk(fi.node):
+            if not (isinstance(sub, ast.Subscript) and isinstance(sub.value, ast.Attribute) and sub.value.attr in ("defaults", "kw_defaults")
+                    and isinstance(sub.value.value, ast.Attribute) and sub.value.value.attr == "args"):
+                continue
+            if not isinstance(sub.slice, ast.Name):
+                continue
+            n += 1
+            which = sub.value.attr
+            srcs = sources_of(sub.slice.id, fi)
+            lists = lists_in(srcs)
+            bad = ("kwonlyargs" in lists) if which == "defaults" else (("args" in lists or "posonlyargs" in lists) and "kwonlyargs" not in lists)
+            inst = "%s: %s indexed by %s (looked up in %s)" % (fi.qualname, which, sub.slice.id, sorted(lists) or "?")
+            if not lists:
+                rep.ob("ALIGN-idx", inst, "unresolved", loc(prog, sub), "cannot see where the index comes from")
+            elif bad:
+                rep.violation(Finding("ALIGN-idx", prog.owner_name(fi) if fi.cls is None else fi.qualname.rsplit(".", 1)[0], "index-from-other-list:%s" % which,
+                                      "%s is indexed with an index looked up in %s: the numbering of keyword-only arguments restarts at 0, so the default of an unrelated "
+                                      "argument is overwritten" % (src(sub, 50), sorted(lists)), loc(prog, sub)))
+            else:
+                rep.holds("ALIGN-idx", inst, loc(prog, sub), "index and list belong together")
+    if n == 0:
+        raise AnalysisError("ALIGN-idx: no `<fn>.args.defaults[idx]` in %s" % anchor)
